@@ -60,7 +60,7 @@ package bytes
 //@   props C06
 //@   requires begin <= end + 1 && end + 1 <= cap(b)
 //@   nopanic
-//@   ensures result.$arr == b.$arr && result.$off == b.$off + begin && len(result) == end + 1 - begin
+//@   ensures result.$arr == b.$arr && result.$off == b.$off + begin && len(result) == end + 1 - begin && cap(result) == cap(b) - begin
 
 //@ func (Bytes).TrimSpaces()
 //@   props C02 C07 C13
